@@ -57,7 +57,6 @@ def render(body, prefix="m", style=None, rng=None):
 
     def code(group):
         n = len(r.text_lines) + 1
-        name = f"cbi_{prefix}_{n}" if not prefix.startswith("cbi_") else f"{prefix}_{n}"
         name = f"cbi_m_{prefix}_{n}"
         emit("code", [name + ";"], group, marker=name)
         if r.groups[group]["marker"] is None:
@@ -80,6 +79,16 @@ def render(body, prefix="m", style=None, rng=None):
                 emit("def", deco_directive(f"#undef {it[1]}"), group, name=it[1], op="undef")
             elif k == "raw":
                 emit(it[2], [it[1]], group)
+            elif k == "include":
+                # ["include", form, spelling]  form: "q" -> "spelling", "a" -> <spelling>, "m" -> macro name
+                form, sp = it[1], it[2]
+                txt = "#include " + ('"%s"' % sp if form == "q" else "<%s>" % sp if form == "a" else sp)
+                emit("inc", deco_directive(txt) if form != "m" else [txt], group, form=form, spelling=sp,
+                     site=it[3] if len(it) > 3 else None)
+            elif k == "once":
+                emit("other", ["#pragma once"], group)
+            elif k == "directive":
+                emit("other", [it[1]], group)
             elif k == "chain":
                 r.n_chains += 1
                 for kw, expr, sub in it[1]:
@@ -102,12 +111,13 @@ def render(body, prefix="m", style=None, rng=None):
     return r
 
 
-def expected_lines(r, live_markers):
-    """Lines a conforming preprocessor does not skip (+ directive rule of C01), given gcc's markers."""
+def expected_lines(r, live_markers, top_by_marker=False):
+    """Lines a conforming preprocessor does not skip (+ directive rule of C01), given gcc's markers.
+    top_by_marker: the file is a header -- its top-level group is live iff its first marker is."""
     live = set(live_markers)
 
     def group_live(g):
-        if g == 0:
+        if g == 0 and not top_by_marker:
             return True
         m = r.groups[g]["marker"]
         if m is None:
